@@ -788,6 +788,8 @@ func (ds *AnySource) writeControlStart(config *WriteControlConfig) error {
 			filename := fmt.Sprintf(filenamePattern, dsp.Name, "ljh3")
 			dsp.DataPublisher.SetLJH3(i, timebase, nrows, ncols, ds.subframeDivisions,
 				ds.subframeOffsets[i], filename)
+			dsp.DataPublisher.LJH3.Row = rowNum
+			dsp.DataPublisher.LJH3.Column = colNum
 		}
 	}
 	return ds.writingState.Start(filenamePattern, path, config)
